@@ -41,6 +41,10 @@ pub fn gen(seed: u64, tier: Tier) -> ScenarioSpec {
     if rng.chance(1, 5) {
         spec.knobs.insert("prelude".into(), *rng.pick(&[1i64, 3]));
     }
+    if rng.chance(1, 10) {
+        // the disk fills up while the archive is being written
+        spec.sink.enospc_after = Some(rng.below(2 * len as u64 + 12_000));
+    }
     spec
 }
 
@@ -68,6 +72,18 @@ pub fn run(spec: &ScenarioSpec, ctx: &mut Ctx) -> Result<(), Violation> {
     }
     let wz = write_slpp(g1, &spec.sink, spec.compression);
     note_write(ctx, &wz);
+    if wz.failed {
+        // the sink reported "no space": the writer must pass that on, never claim success
+        return match wz.res {
+            Res::Ok(()) => Err(Violation::new(P, "swallowed-io-error", "peppi::write", format!("the sink failed after {} bytes but peppi::write returned Ok (an incomplete archive looks like a finished one)", wz.data.len()))),
+            Res::Err(..) => {
+                ctx.probe("sink full: writer reported the error");
+                ctx.rep.nontrivial = true;
+                Ok(())
+            }
+            Res::Caught(c) => Err(caught_violation(P, "peppi::write", &c)),
+        };
+    }
     expect_ok(P, "peppi::write", wz.res)?;
     ctx.check();
     let mut r2 = read_slpp(&wz.data, &spec.stream2, false);
